@@ -267,6 +267,11 @@ class World:
                 tree = self.cfg.to_tree()
                 subs = {k: tree[k] for k, f in codec.seq(self.desc["fields"]) if f["kind"] == "schema" and k in tree}
                 self.cfg = cinco.Config(self.schema, key_filename=self.keyfile, **subs)
+            elif op == "Rekey":
+                # every key file there is gets a new key, through the library's own KeyFile.generate_key
+                for name in sorted(self.key_files()):
+                    path = os.path.join(self.home, ".cincokey") if name == "default" else os.path.join(self.root, name)
+                    cinco.KeyFile(path).generate_key()
             elif op == "Adopt":
                 other = cinco.Config(self.schema, key_filename=os.path.join(self.root, "kother"))
                 other.items = [{"u": "o", "pw": "adoptpw#1"}]
@@ -379,10 +384,13 @@ def driver(cinco, desc, seed, n_traces, length):
     for _ in range(n_traces):
         w = World(cinco, desc, "trace")
         events = []
+        pending = []
         try:
             for _ in range(length):
-                r = rng.random()
-                if r < 0.6:
+                r = rng.random() if not pending else 2.0
+                if pending:
+                    ev = pending.pop(0)
+                elif r < 0.6:
                     which = rng.choice(["dflt", "dl", "name", "pw", "hash", "blob", "bl", "sl", "nl", "dd", "api", "sub.tok", "vault", "vault.sec", "vault2", "vault2.sec", "vault.inner.tok", "items", "sitems", "sub.port", "vault.inner.n"])
                     path, key = which.rsplit(".", 1) if "." in which else ("", which)
                     p = path.split(".") if path else []
@@ -418,6 +426,9 @@ def driver(cinco, desc, seed, n_traces, length):
                     ev = {"op": rng.choice(["Adopt", "Rebuild"])}
                 elif r < 0.85:
                     ev = {"op": "RoundTrip", "fmt": rng.choice(["json", "yaml", "bson", "xml", "pickle"])}
+                    if rng.random() < 0.25:
+                        # ... a key rotation, and the next save
+                        pending.extend([{"op": "Rekey"}, {"op": "RoundTrip", "fmt": rng.choice(["json", "yaml", "bson", "xml", "pickle"])}])
                 else:
                     m = rng.choice([None, "", "*", "#", "XXXX", "masked"])
                     ev = {"op": "Render", "virtual": rng.random() < 0.5, "mask": {"m": "none"} if m is None else {"m": "str", "s": list(m)},
@@ -538,7 +549,7 @@ def run_persist(prop, invs, props, tier, seed):
     sedges, sinits = normalise(sim.printed.get("EDGE", []), sim.printed.get("INIT", []))
     g2 = replay.Graph(sinits + inits, sedges)
     stats2, mism2 = replay.run_graph(adapter, g2, seed=seed)
-    relevant = {"C02": ("RoundTrip", "Rebuild", "Set", "Adopt", "Render"), "C03": ("RoundTrip", "Rebuild", "Set", "Adopt"), "C10": ("Render", "Set"), "C06": ("Set", "Adopt")}[prop]
+    relevant = {"C02": ("RoundTrip", "Rebuild", "Set", "Adopt", "Render"), "C03": ("RoundTrip", "Rebuild", "Set", "Adopt", "Rekey"), "C10": ("Render", "Set"), "C06": ("Set", "Adopt")}[prop]
     for m in (mism + mism2)[:30]:
         if m.ev["op"] not in relevant:
             continue
